@@ -7,15 +7,16 @@ CONSTANTS
   MULT = 5
   BLOCKGAS = 250
   GATEWAY = "gw"
+  FIX <- c_FIX
   DEVS = {"DEV_SplitBalanceCheck"}
   SENDERS = {"a1", "a2"}
-  TARGETS = {"a2", "c", "w", "new", "newp"}
+  TARGETS = {"a2", "c", "w", "newp"}
   TYPES = {"leg", "dyn"}
   PCS_N = {"at", "above"}
   PCS_X = {"below"}
   TIPS_N = {"one"}
   TIPS_X = {}
-  GLS_N = {"intr", "big"}
+  GLS_N = {"fit", "big"}
   GLS_X = {}
   VCS_N = {"zero", "one"}
   VCS_X = {"split"}
@@ -27,6 +28,7 @@ CONSTANTS
   GENBAL = 1000
   BFS = {2}
   BATCH = "no"
+  WCS = {"zero", "new"}
   OPS = {"dep", "dlg"}
   GEN = FALSE
 VIEW View
